@@ -28,25 +28,52 @@ def cvals(shape, ver):
 class Env(object):
     """A dataset d (in a collection, with a second dataset o) at given versions."""
 
-    def __init__(self, dver, shape, linked):
+    def __init__(self, dver, shape, linked, incoll=True, vs=None):
         from glue.core import Data, DataCollection
         self.shape_name = shape
         shp = SHAPES[shape]
-        self.d = Data(label='d', f=fvals(shp, dver), i=ivals(shp, dver), c=cvals(shp, 0))
+        self.d = Data(label='d', f=fvals(shp, dver), i=ivals(shp, dver), c=cvals(shp, 0),
+                      g2=np.arange(1, int(np.prod(shp)) + 1, dtype=float).reshape(shp) ** 2)
         self.o = Data(label='o', x=np.arange(6, dtype=float).reshape(SHAPES['s1']))
-        self.dc = DataCollection([self.d, self.o])
+        self.dc = DataCollection([self.d, self.o]) if incoll else None
         self.link = None
-        if linked:
-            self.add_link()
+        self.viewer_state = None
+        self.layer_state = None
+        if linked and linked != 'none':
+            self.set_link(linked)
+        if vs is not None and incoll:
+            self.make_viewer(vs)
 
-    def add_link(self):
+    def make_link(self, kind):
         from glue.core.component_link import ComponentLink
-        self.link = ComponentLink([self.d.id['f']], self.o.id['x'], using=lambda v: v * 2.0 + 1.0, inverse=lambda v: (v - 1.0) / 2.0)
-        self.dc.add_link(self.link)
+        if kind == 'L1':
+            return ComponentLink([self.d.id['f']], self.o.id['x'], using=lambda v: v * 2.0 + 1.0, inverse=lambda v: (v - 1.0) / 2.0)
+        return ComponentLink([self.d.id['f']], self.o.id['x'], using=lambda v: v - 4.0, inverse=lambda v: v + 4.0)
 
-    def remove_link(self):
-        self.dc.remove_link(self.link)
-        self.link = None
+    def set_link(self, kind):
+        if kind == 'none':
+            if self.link is not None:
+                self.dc.remove_link(self.link)
+            self.link = None
+        elif self.link is None:
+            self.link = self.make_link(kind)
+            self.dc.add_link(self.link)
+        else:
+            self.link = self.make_link(kind)
+            self.dc.set_links([self.link])          # replaces the link: same reachable attributes, other values
+
+    def make_viewer(self, vs):
+        from glue.viewers.histogram.state import HistogramViewerState, HistogramLayerState
+        self.viewer_state = HistogramViewerState()
+        self.layer_state = HistogramLayerState(layer=self.d, viewer_state=self.viewer_state)
+        self.viewer_state.layers.append(self.layer_state)
+        self.viewer_state.x_att = self.d.id['g2']
+        self.apply_viewer(vs)
+
+    def apply_viewer(self, vs):
+        v = self.viewer_state
+        v.x_log = bool(vs['log'])
+        v.hist_n_bin = int(vs['nbin'])
 
 
 def params(kind, ver, shape):
@@ -194,10 +221,18 @@ def evaluate(env, state, subset, kind):
                            d.compute_statistic('maximum', d.id['i'], subset_state=state)], dtype=float)
     if kind == 'hist':
         return np.asarray(d.compute_histogram([d.id['f']], range=[(-2.0, 6.0)], bins=[4], subset_state=state), dtype=float)
+    if kind == 'layerhist':
+        if env.layer_state is None:
+            return np.asarray([0.0])
+        env.layer_state.reset_cache() if False else None
+        h = env.layer_state.histogram
+        return np.concatenate([np.asarray(h[0], dtype=float), np.asarray(h[1], dtype=float)])
     if kind == 'linkedvalue':
         from glue.core.exceptions import IncompatibleAttribute
+        if env.dc is None:
+            return np.asarray([-1.0])
         try:
-            return np.asarray(env.o[d.id['f']]).copy()
+            return np.asarray(env.d[env.o.id['x']]).copy()      # d reads o.x through the link
         except IncompatibleAttribute:
             return np.asarray([-12345.0])
     raise ValueError(kind)
@@ -217,6 +252,7 @@ def clear_memo():
 
 def replay_one(beh):
     kinds = beh['kinds']
+    incoll = True
     env = None
     state = subset = group = None
     tree = None
@@ -228,7 +264,8 @@ def replay_one(beh):
             try:
                 if op == 'Setup':
                     tree = a['a']
-                    env = Env(0, 's1', False)
+                    incoll = a['b'] != 'standalone'
+                    env = Env(0, 's1', 'none', incoll=incoll, vs=st['vs'])
                     leaves = {s: build_leaf(env, kinds[s], 0) for s in ('A', 'B')}
                     state = build_tree(tree, leaves)
                     if a['b'] == 'attached':
@@ -237,7 +274,7 @@ def replay_one(beh):
                         subset = [s for s in env.d.subsets if s.group is group][0]
                 elif op == 'Evaluate':
                     got = evaluate(env, state, subset, a['a'])
-                    fresh_env = Env(st['dver'], st['shape'], st['linked'])
+                    fresh_env = Env(st['dver'], st['shape'], st['linked'], incoll=incoll, vs=st['vs'])
                     fl = {s: build_leaf(fresh_env, kinds[s], st['pver'][s]) for s in ('A', 'B')}
                     fstate = build_tree(tree, fl)
                     fsub = None
@@ -257,16 +294,17 @@ def replay_one(beh):
                 elif op == 'UpdateFromData':
                     from glue.core import Data
                     shp = SHAPES[st['shape']]
-                    other = Data(label='d', f=fvals(shp, st['dver']), i=ivals(shp, st['dver']), c=cvals(shp, 0))
+                    other = Data(label='d', f=fvals(shp, st['dver']), i=ivals(shp, st['dver']), c=cvals(shp, 0),
+                                 g2=np.arange(1, int(np.prod(shp)) + 1, dtype=float).reshape(shp) ** 2)
                     env.d.update_values_from_data(other)
                 elif op == 'MutateLeaf':
                     slot = a['a']
                     for leaf in live_leaves(tree, state, slot):
                         mutate_leaf(env, leaf, kinds[slot], st['pver'][slot], a['b'])
-                elif op == 'AddLink':
-                    env.add_link()
-                elif op == 'RemoveLink':
-                    env.remove_link()
+                elif op == 'SetLink':
+                    env.set_link(a['a'])
+                elif op == 'SetViewer':
+                    env.apply_viewer(st['vs'])
                 else:
                     raise ValueError(op)
             except Exception as e:
